@@ -382,6 +382,7 @@ func (m *Machine) selectOp(fr *frame, in *ssa.Select) value {
 	rd := readyIdx()
 	if len(rd) == 0 {
 		if !in.Blocking {
+			m.event("selectdefault") // the gated replay waits for an event at every select
 			res := tuple{m.st.BV(64, ^uint64(0)), m.st.False}
 			for _, s := range in.States {
 				if s.Dir == types.RecvOnly {
